@@ -153,31 +153,20 @@ def duNew : List (Nat × Nat) → Option DuSt
     | none => none
     | some e => some ⟨r.1, e, rs⟩
 
-/-- the `loop` of `DefaultUvsIter::next` from `cur_range = lo..hi` with `rest` ranges left:
-`if let Some(cp) = cur_range.next() { return Some(cp) }  let range = ranges.next()?;  cur_range = start..end` -/
-def duLoop (lo hi : Nat) : List (Nat × Nat) → Out Nat × DuSt
-  | rest =>
-    if lo < hi then (.yield lo, ⟨lo + 1, hi, rest⟩)
-    else
-      match rest with
-      | [] => (.done, ⟨lo, hi, []⟩)
-      | r :: rs =>
-        match uvsEnd r with
-        | none => (.trap, ⟨lo, hi, []⟩)
-        | some e =>
-          if r.1 < e then (.yield r.1, ⟨r.1 + 1, e, rs⟩)
-          else duSkip r.1 e rs
-where
-  /-- an empty new range: round the loop again (never taken by decoded records, `end > start`) -/
-  duSkip (lo hi : Nat) : List (Nat × Nat) → Out Nat × DuSt
-    | [] => (.done, ⟨lo, hi, []⟩)
-    | r :: rs =>
-      match uvsEnd r with
-      | none => (.trap, ⟨lo, hi, []⟩)
-      | some e => if r.1 < e then (.yield r.1, ⟨r.1 + 1, e, rs⟩) else duSkip r.1 e rs
+/-- the `loop` of `DefaultUvsIter::next` once `cur_range` (`lo..hi`) is exhausted:
+`let range = self.ranges.next()?; … self.cur_range = start..end;` and round again
+(`if let Some(cp) = self.cur_range.next() { return Some(cp) }`).  Structural on the remaining ranges; a decoded
+record always gives `end > start`, so the second trip returns. -/
+def duSkip (lo hi : Nat) : List (Nat × Nat) → Out Nat × DuSt
+  | [] => (.done, ⟨lo, hi, []⟩)
+  | r :: rs =>
+    match uvsEnd r with
+    | none => (.trap, ⟨lo, hi, []⟩)
+    | some e => if r.1 < e then (.yield r.1, ⟨r.1 + 1, e, rs⟩) else duSkip r.1 e rs
 
 /-- `DefaultUvsIter::next` (one call: `yield` / `done` / `trap`, never `cont`) -/
-def duNext (s : DuSt) : Out Nat × DuSt := duLoop s.lo s.hi s.rest
+def duNext (s : DuSt) : Out Nat × DuSt :=
+  if s.lo < s.hi then (.yield s.lo, { s with lo := s.lo + 1 }) else duSkip s.lo s.hi s.rest
 
 /-- code points still to come: the rest of the current range and every later range -/
 def duRem (s : DuSt) : Nat := (s.hi - s.lo) + (s.rest.map (fun r => r.2 + 1)).sum
@@ -244,6 +233,18 @@ def c14Step (t : List Cmap.VarSel) (s : C14St) : Out (Nat × Nat × Cmap.MapVari
 def c14Weight (r : Cmap.VarSel) : Nat :=
   (match r.defaults with | some rs => duTotal rs | none => 0) +
   (match r.nonDefaults with | some ms => ms.length | none => 0) + 1
+
+/-- items one selector record yields: its default code points and its mappings -/
+def c14Items (r : Cmap.VarSel) : Nat :=
+  (match r.defaults with | some rs => duTotal rs | none => 0) +
+  (match r.nonDefaults with | some ms => ms.length | none => 0)
+
+/-- every remaining range end `start + additional_count + 1` fits `u32` -/
+def RestOk (rest : List (Nat × Nat)) : Prop := ∀ r ∈ rest, uvsEnd r ≠ none
+
+/-- the decoded default UVS ranges hold a `Uint24` start and a `u8` count -/
+def C14Wf (t : List Cmap.VarSel) : Prop :=
+  ∀ rec ∈ t, ∀ ranges, rec.defaults = some ranges → ∀ r ∈ ranges, r.1 < 16777216 ∧ r.2 < 256
 
 /-- fuel that always suffices (`cmap14_iter_bounded`) -/
 def c14Fuel (t : List Cmap.VarSel) : Nat := (t.map c14Weight).sum + 1
@@ -359,6 +360,14 @@ def charStep (enc : NameStr.Encoding) (d : List Nat) (pos : Nat) : Out Nat × Na
 start a `CharIter` at `pos = 0`) -/
 def charTrace (enc : NameStr.Encoding) (d : List Nat) : Option (List (Out Nat)) :=
   run (charStep enc d) (d.length + 1) 0
+
+/-- chars a `CharIter` at `pos` can still yield, per encoding: two bytes per UTF-16 char at least, one per Mac
+Roman char, none for an unknown encoding -/
+def charNu (enc : NameStr.Encoding) (len pos : Nat) : Nat :=
+  match enc with
+  | .utf16be => (len - pos) / 2
+  | .macRoman => len - pos
+  | .unknown => 0
 
 /-- a storage slice handed out by `NameRecord::string` / `LangTagRecord::lang_tag` -/
 inductive Slice where
